@@ -53,7 +53,55 @@ def run_one(sid, tier="quick", tests=False, checks=None):
         json.dump(res, open(os.path.join(d, "result.json"), "w"), indent=1)
 
 
+def confirm_one(sid):
+    """Independent confirmation of a seeded change, in a scratch worktree: the demonstration passes on the clean tree, the
+    whole test suite passes with the change applied, the demonstration fails with the change applied."""
+    d = os.path.join(VERIF, "seeded", sid)
+    scratch = tempfile.mkdtemp(prefix="verif-confirm-")
+    wt = os.path.join(scratch, "repo")
+    out = {}
+    try:
+        subprocess.run(["git", "-C", "/repo", "worktree", "add", "-q", "--detach", wt, "HEAD"], check=True)
+        env = dict(os.environ, PYTHONPATH=wt, MPLBACKEND="Agg")
+        demo = os.path.join(d, "demo.py")
+        r = subprocess.run(["/venv/bin/python", demo], cwd=wt, env=env, capture_output=True, text=True, timeout=1800)
+        out["demo_rc_clean_tree"] = r.returncode
+        ap = subprocess.run(["git", "-C", wt, "apply", os.path.join(d, "patch.diff")], capture_output=True, text=True)
+        out["patch_applies"] = ap.returncode == 0
+        if ap.returncode == 0:
+            t = subprocess.run(["/venv/bin/python", "-m", "pytest", "-q", "-p", "no:cacheprovider", "tests"], cwd=wt, env=env, capture_output=True, text=True, timeout=7200)
+            out["tests_rc_with_change"] = t.returncode
+            out["tests_tail"] = (t.stdout.strip().splitlines() or [""])[-1]
+            r = subprocess.run(["/venv/bin/python", demo], cwd=wt, env=env, capture_output=True, text=True, timeout=1800)
+            out["demo_rc_with_change"] = r.returncode
+            out["demo_message"] = (r.stdout + r.stderr).strip().splitlines()[-1:] if r.returncode else []
+        out["confirmed"] = bool(out.get("patch_applies") and out.get("demo_rc_clean_tree") == 0 and out.get("tests_rc_with_change") == 0 and out.get("demo_rc_with_change", 0) != 0)
+        out["repo_head"] = subprocess.run(["git", "-C", "/repo", "rev-parse", "--short", "HEAD"], capture_output=True, text=True).stdout.strip()
+    except Exception as e:  # noqa
+        out["error"] = f"{type(e).__name__}: {e}"[:300]
+    finally:
+        subprocess.run(["git", "-C", "/repo", "worktree", "remove", "--force", wt], capture_output=True)
+        shutil.rmtree(scratch, ignore_errors=True)
+    json.dump(out, open(os.path.join(d, "confirmation.json"), "w"), indent=1)
+    return sid, out
+
+
 def main(argv):
+    if "--confirm" in argv:
+        from concurrent.futures import ThreadPoolExecutor
+
+        argv = [a for a in argv if a != "--confirm"]
+        jobs = 6
+        if "--jobs" in argv:
+            i = argv.index("--jobs")
+            jobs = int(argv[i + 1])
+            del argv[i : i + 2]
+        ids = argv or sorted(x for x in os.listdir(os.path.join(VERIF, "seeded")) if os.path.exists(os.path.join(VERIF, "seeded", x, "patch.diff")))
+        with ThreadPoolExecutor(jobs) as ex:
+            for sid, out in ex.map(confirm_one, ids):
+                print(sid, "confirmed" if out.get("confirmed") else "NOT-CONFIRMED", {k: v for k, v in out.items() if k not in ("demo_message",)}, flush=True)
+        return
+
     tier = "quick"
     tests = False
     ids = []
